@@ -39,6 +39,7 @@
 #include "cmb_event.h"
 #include "cmb_logger.h"
 
+#include "cmi_memutils.h"
 #include "cmi_process.h"
 #include "cmi_resourcebase.h"
 
@@ -118,6 +119,9 @@ void cmb_resourceguard_terminate(struct cmb_resourceguard *rgp)
 
 /* The event that resumes a waiting process, defined below */
 static void wakeup_event_resource(void *vp, void *arg);
+
+/* Passing a signal on to the observers of a guard, defined below */
+static void forward_signal(const struct cmb_resourceguard *rgp);
 
 /*
  * cmb_resourceguard_wait - Enqueue and suspend the calling process until it
@@ -244,17 +248,62 @@ bool cmb_resourceguard_signal(struct cmb_resourceguard *rgp)
     }
 
     /* Forward the signal to any observers */
+    forward_signal(rgp);
+
+    return ret;
+}
+
+/*
+ * signal_observer - A forwarded signal arriving at an observing guard. The
+ * observer cannot know which of its waiters the change concerns (a condition
+ * variable has a different demand predicate for each of them), so it evaluates
+ * the demand of every waiting process, not just the first in line, and resumes
+ * all that are satisfied, like cmb_condition_signal() does. Two passes, to
+ * avoid modifying the heap while iterating over it.
+ */
+static void signal_observer(struct cmb_resourceguard *obs)
+{
+    cmb_assert_debug(obs != NULL);
+
+    struct cmi_hashheap *hp = (struct cmi_hashheap *)obs;
+    if (!cmi_hashheap_is_empty(hp)) {
+        uint64_t cnt = 0u;
+        uint64_t *tmp = cmi_malloc(hp->heap_count * sizeof(*tmp));
+        const struct cmi_resourcebase *rbp = obs->guarded_resource;
+        for (uint64_t ui = 1u; ui <= hp->heap_count; ui++) {
+            const struct cmi_heap_tag *htp = &(hp->heap[ui]);
+            struct cmb_process *pp = htp->item[0];
+            cmb_resourceguard_demand_func *demand = htp->item[1];
+            const void *ctx = htp->item[2];
+            if ((*demand)(rbp, pp, ctx)) {
+                tmp[cnt++] = htp->key;
+                (void)cmb_event_schedule(wakeup_event_resource, pp,
+                                         (void *)CMB_PROCESS_SUCCESS,
+                                         cmb_time(), cmb_process_priority(pp));
+            }
+        }
+
+        for (uint64_t ui = 0u; ui < cnt; ui++) {
+            (void)cmi_hashheap_remove(hp, tmp[ui]);
+        }
+
+        cmi_free(tmp);
+    }
+
+    /* And on to its own observers, if any */
+    forward_signal(obs);
+}
+
+static void forward_signal(const struct cmb_resourceguard *rgp)
+{
     const struct cmi_slist_head *ohead = &(rgp->observers);
     while (ohead->next != NULL) {
         const struct observer_tag *ot = cmi_container_of(ohead->next,
                                                          struct observer_tag,
                                                          listhead);
-        struct cmb_resourceguard *obs = ot->observer;
-        cmb_resourceguard_signal(obs);
+        signal_observer(ot->observer);
         ohead = ohead->next;
     }
-
-    return ret;
 }
 
 /*
